@@ -705,7 +705,7 @@ class Builder(object):
                 console.terse("     Warning: Init of non-preexistent share {0} ..."
                         " creating anyway\n".format(destinationPath))
 
-            destination = self.currentStore.create(destinationPath)
+            destination = self.createShare(destinationPath, command, tokens, index)
 
             connective = tokens[index]
             index += 1
@@ -873,7 +873,7 @@ class Builder(object):
                     if self.currentStore.fetchShare(srcPath) is None:
                         console.terse("     Warning: Init 'with' non-existent share {0}"
                                       " ... creating anyway".format(srcPath))
-                    src = self.currentStore.create(srcPath)
+                    src = self.createShare(srcPath, command, tokens, index)
                     #assumes src share inited before this line parsed
                     for field in srcFields:
                         if field not in src:
@@ -1264,7 +1264,7 @@ class Builder(object):
                 if not tag:
                     tag = parts[-1]
 
-                share = self.currentStore.create(path) #create so no errors at runtime
+                share = self.createShare(path, command, tokens, index) #create so no errors at runtime
                 if not isinstance(share, storing.Share): #verify path ends in share not node
                     msg = "Error building %s. Loggee path %s not Share." % (command, path)
                     raise excepting.ParseError(msg, tokens, index)
@@ -1373,9 +1373,13 @@ class Builder(object):
                         (command, name)
                 raise excepting.ParseError(msg, tokens, index)
             else:
-                framer = framing.Framer(name = name,
-                                        store = self.currentStore,
-                                        period = period)
+                try:
+                    framer = framing.Framer(name = name,
+                                            store = self.currentStore,
+                                            period = period)
+                except ValueError as ex:  # a framer share path collides with a share of the script
+                    msg = "Error building %s. Framer %s: %s." % (command, name, ex)
+                    raise excepting.ParseError(msg, tokens, index)
                 framer.schedule = schedule
                 framer.first = frame #need to resolve later
                 framer.inode = inode
@@ -4814,6 +4818,18 @@ class Builder(object):
                 dst[field] = None #create
 
         return (dataFields, dstFields)
+
+    def createShare(self, path, command, tokens, index):
+        """
+        Returns share at path in current store, created if it does not exist.
+        Store's ValueError for a path that runs through an existing share or that
+        names an existing node is reported as ParseError
+        """
+        try:
+            return self.currentStore.create(path)
+        except ValueError as ex:
+            msg = "Error building %s. Bad share path '%s': %s." % (command, path, ex)
+            raise excepting.ParseError(msg, tokens, index)
 
     def verifyShareFields(self, share, fields, tokens, index):
         """
